@@ -10,10 +10,23 @@ where for<'a> &'a Self: EucRingOps<Self> {}
 impl<T> DivRound for T
 where T: Integer, for<'x> &'x T: IntOps<T> {
     fn div_round(&self, q: &Self) -> Self {
-        let a = self.to_f64().unwrap();
-        let b = q.to_f64().unwrap();
-        let r = (a / b).round();
-        Self::from_f64(r).unwrap()
+        // exact nearest-integer quotient (ties away from zero).
+        let d = self / q; // truncated
+        let r = self % q; // sign follows `self`
+        if r.is_zero() { 
+            return d
+        }
+
+        let (r_abs, q_abs) = (r.abs(), q.abs());
+        if r_abs >= &q_abs - &r_abs { // 2|r| >= |q|
+            if self.is_negative() == q.is_negative() { 
+                d + Self::one()
+            } else { 
+                d - Self::one()
+            }
+        } else { 
+            d
+        }
     }
 }
 
